@@ -19,7 +19,7 @@ import os
 import sys
 import time
 
-from harness.common import coq, repo
+from harness.common import coq
 from harness.translate import apitable, routes
 
 ID = 'C09'
@@ -120,7 +120,6 @@ def default_flags(flag_names, workdir):
     """the value each flag has with the package's default settings (read from the imported settings, before any change)"""
     from qtoggleserver import system
     from qtoggleserver.conf import settings
-    from qtoggleserver.core import history
     from qtoggleserver.slaves import discover
     out = {}
     for n in flag_names:
@@ -225,8 +224,15 @@ def setup_impl(ctx, res):
 
     def make_stub(name):
         async def stub(request, *a, **kw):
-            case = request.headers.get('X-Case')
-            calls.setdefault(case, []).append((name, request.access_level))
+            try:
+                case = request.headers.get('X-Case')
+            except Exception:
+                case = None
+            try:
+                lvl = request.access_level
+            except Exception:
+                lvl = None
+            calls.setdefault(case, []).append((name, lvl))
             return None
         stub.__name__ = name.split('.')[-1]
         return stub
@@ -235,7 +241,10 @@ def setup_impl(ctx, res):
     for w in wrappers.values():
         name = '%s.%s' % (w.__module__, w.__name__)
         originals[name] = w.__closure__[1].cell_contents
-        w.__closure__[1].cell_contents = make_stub(name)
+        stub = make_stub(name)
+        w.__closure__[1].cell_contents = stub
+        if hasattr(w, '__wrapped__'):
+            w.__wrapped__ = stub  # functools.wraps exposes the real body; a call through it must not run it either
         stubbed.add(id(w))
 
     # safety net: a function handed to call_api_func that is not a stubbed api_call wrapper must not run for real
@@ -253,11 +262,13 @@ def setup_impl(ctx, res):
 
     web_base.APIHandler.call_api_func = guarded_call_api_func
 
-    auth_headers = {u: core_api_auth.make_auth_header(core_api_auth.ORIGIN_CONSUMER, u, hashes[u]) for u in PASSWORDS}
+    def fresh_auth():
+        # tokens carry iat and are refused after settings.core.max_client_time_skew (300 s): make them per flag set
+        return {u: core_api_auth.make_auth_header(core_api_auth.ORIGIN_CONSUMER, u, hashes[u]) for u in PASSWORDS}
     levels = {None: core_api.ACCESS_LEVEL_NONE}
     for u in PASSWORDS:
         levels[u] = core_api.ACCESS_LEVEL_MAPPING[u]
-    impl = {'calls': calls, 'auth': auth_headers, 'levels': levels, 'server': web_server, 'runtime_levels': runtime_levels,
+    impl = {'calls': calls, 'fresh_auth': fresh_auth, 'levels': levels, 'server': web_server, 'runtime_levels': runtime_levels,
             'n_wrappers': len(wrappers)}
     _state['impl'] = impl
     return impl
@@ -268,6 +279,35 @@ def setup_impl(ctx, res):
 
 def sample_path(tmpl):
     return tmpl.replace('{+}', SAMPLE_REST).replace('{}', SAMPLE_ID)
+
+
+def safe_template(rx):
+    """URL shape of a running regex; a regex outside the translator's shapes keeps its own text as "shape" (the
+    specification then does not know it) instead of stopping the harness"""
+    try:
+        return routes.template_of_regex(rx)
+    except routes.Untranslatable:
+        return rx, False
+
+
+def sample_for_regex(rx):
+    """a concrete path for a running URLSpec: from the URL shape, or, for foreign shapes, by filling every group"""
+    import re
+    tmpl, _ = safe_template(rx)
+    if tmpl != rx:
+        return sample_path(tmpl)
+    p = rx.lstrip('^').rstrip('$')
+    if p.endswith('/?'):
+        p = p[:-2]
+    prev = None
+    while prev != p:   # innermost groups first
+        prev = p
+        p = re.sub(r'\((?:\?P<\w+>|\?:)?[^()]*\)[+*?]?', SAMPLE_ID, p)
+    p = p.replace('.*', '').replace('.+', SAMPLE_ID).replace('\\', '')
+    try:
+        return p if re.match(rx, p) else None
+    except re.error:
+        return None
 
 
 def spec_key(spec):
@@ -309,7 +349,7 @@ def classify(table, path):
         if s.regex.match(path):
             if is_qui(s):
                 return 2, '<frontend-files>', s
-            tmpl, _ = routes.template_of_regex(s.regex.pattern)
+            tmpl, _ = safe_template(s.regex.pattern)
             if tmpl in ('/api/*', '/*'):
                 return 1, tmpl, s
             return 0, tmpl, s
@@ -327,7 +367,7 @@ async def build_app(impl, tr, flagset, workdir, res):
         await web.init()
     table = impl['server']._make_routing_table()
     exp, obs = expected_table(tr, flagset), observed_table(table)
-    if exp != obs:
+    if exp != obs and not tr.get('fallback'):
         res['tie_failures'].append({'note': 'routing table differs from the translated one', 'flags_on': sorted(flagset),
                                     'translated': [x for x in exp if x not in obs][:6],
                                     'running': [x for x in obs if x not in exp][:6]})
@@ -355,9 +395,11 @@ def paths_for(tr, table, full):
                 add(sample_path(e['tmpl']) + '/')
     for s in table:
         if not is_qui(s):
-            tmpl, slash = routes.template_of_regex(s.regex.pattern)
+            tmpl, slash = safe_template(s.regex.pattern)
             if tmpl not in ('/api/*', '/*'):
-                add(sample_path(tmpl))
+                p = sample_for_regex(s.regex.pattern)
+                if p is not None:
+                    add(p)
     for p in UNKNOWN_PATHS + QUI_PATHS:
         add(p)
     return paths
@@ -375,13 +417,14 @@ async def run_requests(impl, app, reqs):
     client = AsyncHTTPClient(force_instance=True, max_clients=48)
     calls = impl['calls']
     calls.clear()
+    auth = impl['fresh_auth']()
     out = [None] * len(reqs)
     sem = asyncio.Semaphore(48)
 
     async def one(i, r):
         hd = {'X-Case': str(i)}
         if r['user']:
-            hd['Authorization'] = impl['auth'][r['user']]
+            hd['Authorization'] = auth[r['user']]
         body = None
         if r['method'] in ('POST', 'PUT', 'PATCH'):
             body = '{}'
@@ -429,17 +472,32 @@ def make_reqs(paths, full_json):
     return reqs
 
 
-def coq_obs(o):
+class Intern:
+    """string constants of a shard, defined once and referred to by name (Coq elaborates long string literals slowly)"""
+
+    def __init__(self):
+        self.names = {}
+
+    def __call__(self, s):
+        if s not in self.names:
+            self.names[s] = 's%d' % len(self.names)
+        return self.names[s]
+
+    def defs(self):
+        return ''.join('Definition %s : string := %s.\n' % (n, coq.string(s)) for s, n in self.names.items())
+
+
+def coq_obs(o, S):
     if o[0] == 'ran':
-        return '(ORan %s)' % coq.string(o[1])
+        return '(ORan %s)' % S(o[1])
     if o[0] == 'status':
         return '(OStatus %d)' % o[1]
     return '(OStatus (-1))'
 
 
-def coq_case(c):
-    return '(%d, %s, %s, %d, %s, %s)' % (c['cls'], coq.string(c['tmpl']), c['method'], c['level'], coq.boolean(c['json']),
-                                         coq_obs(c['observed']))
+def coq_case(c, S):
+    return '(%d, %s, %s, %d, %s, %s)' % (c['cls'], S(c['tmpl']), c['method'], c['level'], coq.boolean(c['json']),
+                                         coq_obs(c['observed'], S))
 
 
 def violation_of(c, required=None):
@@ -448,6 +506,11 @@ def violation_of(c, required=None):
     if c['cls'] == 1:
         kind = 'unknown-route-not-404'
         what = '%s %s (no route of this shape is enabled) answered %s instead of 404' % (c['method'], c['path'], o[1:])
+    elif o[0] == 'ran' and required == -1:
+        kind = 'route-not-in-specification'
+        what = ('%s %s as %s (level %d) ran %s, but no route of shape %s is in the specification (coq/theories/C09/Spec.v): '
+                'its required level is not defined' % (c['method'], c['path'], c['user'] or 'unauthenticated', lvl, o[1],
+                                                       c['tmpl']))
     elif o[0] == 'ran':
         kind = 'served-below-level'
         what = ('%s %s as %s (level %d) ran %s: the specification requires a higher level for this route and method'
@@ -462,6 +525,7 @@ def violation_of(c, required=None):
         'what': what,
         'case': {'flags_on': c['flags_on'], 'path': c['path'], 'method': c['method'], 'user': c['user'], 'json': c['json']},
         'expected': ('404 (unknown route)' if c['cls'] == 1 else
+                     'route not in the specification' if required == -1 else
                      'required level %s for %s %s; caller level %d: %s' % (
                          required, c['method'], c['tmpl'], lvl,
                          'serve' if required is not None and 0 <= required <= lvl else
@@ -508,7 +572,7 @@ def flag_sets(tr, defaults, mode, rng):
         add(names)
         add([])
     if mode == 'thorough':
-        for _ in range(60):
+        for _ in range(30):
             add([n for n in names if rng.random() < 0.5])
     return sets
 
@@ -522,10 +586,11 @@ def evaluate(ctx, res, groups):
     def flush():
         nonlocal cur, cur_n, cur_cases
         if cur:
+            S = Intern()
             text = 'Definition groups : list (list string * list case) := [\n%s\n].\n' % ';\n'.join(
-                ' (%s, [\n  %s])' % (coq.lst(sorted(fs), coq.string), ';\n  '.join(coq_case(c) for c in cs))
+                ' (%s, [\n  %s])' % (coq.lst(sorted(fs), S), ';\n  '.join(coq_case(c, S) for c in cs))
                 for fs, cs in cur)
-            shards.append(text)
+            shards.append(S.defs() + text)
             metas.append(cur_cases)
         cur, cur_n, cur_cases = [], 0, []
 
@@ -577,33 +642,35 @@ def routing_sweep(ctx, impl, tr, res, sets):
         for fs in sets:
             table, app = await build_app(impl, tr, fs, ctx.workdir, res)
             got = []
-            for tmpl, path in tmpls:
+            for _tmpl, path in tmpls:
                 req = HTTPServerRequest(method='GET', uri=path, version='HTTP/1.1', headers=HTTPHeaders(), host='127.0.0.1')
                 d = app.find_handler(req)
                 h = d.handler_class
                 name = h.__name__ if h.__module__.startswith('qtoggleserver') else 'qui'
-                got.append((tmpl, name))
+                got.append(name)
             rows.append((fs, got))
             if len(res['tie_failures']) - before > 20:
                 break
     asyncio.run(go())
     shards, metas = [], []
-    for i in range(0, len(rows), 500):
-        part = rows[i:i + 500]
-        shards.append('Definition sets : list (list string * list (string * string)) := [\n%s\n].\n' % ';\n'.join(
-            ' (%s, %s)' % (coq.lst(sorted(fs), coq.string),
-                           coq.lst(got, lambda p: '(%s, %s)' % (coq.string(p[0]), coq.string(p[1]))))
-            for fs, got in part))
+    for i in range(0, len(rows), 1000):
+        part = rows[i:i + 1000]
+        S = Intern()
+        text = ('Definition tmpls : list string := %s.\n' % coq.lst([t for t, _ in tmpls], S)
+                + 'Definition sets : list (list string * list string) := [\n%s\n].\n' % ';\n'.join(
+                    ' (%s, %s)' % (coq.lst(sorted(fs), S), coq.lst(got, S)) for fs, got in part))
+        shards.append(S.defs() + text)
         metas.append(part)
     if ctx.model_ok:
-        outs = coq.eval_shards(ctx.workdir, 'c09routing', HEADER, shards, ['bad_routing sets'])
+        outs = coq.eval_shards(ctx.workdir, 'c09routing', HEADER, shards, ['bad_routing tmpls sets'])
         for (rc, lists, err), part in zip(outs, metas):
             if rc != 0 or len(lists) != 1:
                 res['tie_failures'].append('coqc failed on a routing shard: %s' % err[-600:])
                 continue
             for i in lists[0][:5]:
                 res['tie_failures'].append({'note': 'tornado resolves a URL shape to another handler than the model',
-                                            'flags_on': sorted(part[i][0]), 'resolved': part[i][1]})
+                                            'flags_on': sorted(part[i][0]),
+                                            'resolved': list(zip([t for t, _ in tmpls], part[i][1]))})
     return len(rows), len(rows) * len(tmpls)
 
 
@@ -620,8 +687,8 @@ def load_corpus():
 def run(ctx, res, mode):
     tr = routes.LAST
     if tr is None:
-        # fail closed: without the translated tables there is no model; fall back to the tables of the last successful
-        # translation only to enumerate paths is not possible -> use the running table alone (runtime introspection)
+        # fail closed: the tie is reported broken; the real application is still driven (paths from the running routing
+        # table, the flags the harness knows) so that the specification oracle can produce a concrete failing request
         res['tie_failures'].append('translator failed: requests are enumerated from the running routing table only')
     impl = setup_impl(ctx, res)
     if tr is None:
@@ -637,7 +704,8 @@ def run(ctx, res, mode):
         if ctx.replay:
             with open(ctx.replay) as f:
                 d = json.load(f)
-            seeds += [d['case']] + [o['case'] for o in d.get('others', []) if o.get('case')]
+            seeds += [c for c in [d.get('case')] + [o.get('case') for o in d.get('others', [])]
+                      if isinstance(c, dict) and 'path' in c]
         seeds += load_corpus()
         by_flags = {}
         for s in seeds:
@@ -703,15 +771,28 @@ def run(ctx, res, mode):
             res['exhaustive'] = True
 
 
+KNOWN_FLAGS = ['settings.frontend.enabled', 'settings.core.sequences_support', 'history.is_enabled()',
+               'settings.core.backup_support', 'settings.system.fwupdate.driver', 'settings.slaves.enabled',
+               'is_discover_enabled()', 'settings.webhooks.enabled', 'settings.core.listen_support',
+               'settings.reverse.enabled', 'system.conf.can_write_conf_file()', 'settings.debug',
+               'settings.core.virtual_ports']
+
+
 def runtime_tables(impl):
-    """fallback when the translators fail: flags unknown -> only the default configuration, paths from the running table"""
-    return {'flags': [], 'entries': [], 'classes': {}, 'json_methods': ['POST', 'PATCH', 'PUT']}
+    """fallback when the translators fail (weaker tie, "runtime introspection"): the flags are the ones the harness knows
+    how to switch, the paths come from the running routing table only, AUTH_ENABLED from the handler classes"""
+    from qtoggleserver.web import base as web_base
+    from qtoggleserver.web import handlers as web_handlers
+    classes = {n: {'kind': 'KApi', 'auth': bool(v.AUTH_ENABLED), 'methods': {}} for n, v in vars(web_handlers).items()
+               if inspect.isclass(v) and issubclass(v, web_base.APIHandler)}
+    return {'flags': list(KNOWN_FLAGS), 'entries': [], 'classes': classes, 'json_methods': ['POST', 'PATCH', 'PUT'],
+            'fallback': True}
 
 
 def check(ctx, res):
     res['rule'] = (
         'the real tornado Application(_make_routing_table()) on a loopback socket; for each flag set (quick: package '
-        'defaults and each of the 13 flags toggled singly; thorough: + all pairs, all on, all off, 60 random sets): one '
+        'defaults and each of the 13 flags toggled singly; thorough: + all pairs, all on, all off, 30 random sets): one '
         'concrete path per URLSpec shape (enabled or not; + trailing-slash variants and non-JSON bodies on the first set, on '
         'all sets in thorough), 8 unknown paths, 5 frontend paths x GET POST PUT PATCH DELETE HEAD OPTIONS x {no header, '
         'view-only, normal, admin JWT}; API bodies stubbed. Plus a routing sweep (real router find_handler vs model) over '
